@@ -336,51 +336,68 @@ Definition flat_json (c : config) : json := JObj [
   ("default_parameter_case", JStr (default_parameter_case c));
   ("default_field_case", JStr (default_field_case c)); ("force", ojb (force c)) ].
 
-(* typed field readers; the outer None is a deserialisation error *)
-Definition fl_str (d : list (string * json)) (k dfl : string) : option string :=
-  match lookup k d with None => Some dfl | Some (JStr s) => Some s | Some _ => None end.
-Definition fl_obool (d : list (string * json)) (k : string) : option (option bool) :=
-  match lookup k d with
+(* typed field readers on the value found for a field (None = the file does not give the
+   field); the outer None of the result is a deserialisation error *)
+Definition rd_str (v : option json) (dfl : string) : option string :=
+  match v with None => Some dfl | Some (JStr s) => Some s | Some _ => None end.
+Definition rd_obool (v : option json) : option (option bool) :=
+  match v with
   | None | Some JNull => Some None
   | Some (JBool b) => Some (Some b)
   | Some _ => None
   end.
-Definition fl_ostrs (d : list (string * json)) (k : string) : option (option (list string)) :=
-  match lookup k d with
+Definition rd_ostrs (v : option json) : option (option (list string)) :=
+  match v with
   | None | Some JNull => Some None
   | Some (JArr l) => option_map Some (all_strs l)
   | Some _ => None
   end.
-Definition fl_omap (d : list (string * json)) (k : string) : option (option (list (string * string))) :=
-  match lookup k d with
+Definition rd_omap (v : option json) : option (option (list (string * string))) :=
+  match v with
   | None | Some JNull => Some None
   | Some (JObj l) => option_map Some (all_str_vals l)
   | Some _ => None
   end.
 
-(* the root must be an object here (a JSON array, which serde would read positionally,
-   is outside the model: the correspondence never produces one) *)
+(* the twelve fields in declaration order *)
+Definition flat_keys : list string :=
+  ["project_path"; "output_path"; "validation_library"; "verbose"; "visualize_deps"; "include_private";
+   "type_mappings"; "exclude_patterns"; "include_patterns"; "default_parameter_case"; "default_field_case"; "force"].
+Fixpoint count_key (k : string) (d : list (string * json)) : nat :=
+  match d with [] => 0 | (k', _) :: r => (if String.eqb k k' then 1 else 0) + count_key k r end.
+(* the derived reader sees every member of the text: a field given twice is an error
+   (duplicate field), whatever the two values; unknown keys may repeat. Here the members of a
+   standalone document are kept in text order with their repetitions *)
+Definition dup_field (d : list (string * json)) : bool :=
+  existsb (fun k => Nat.leb 2 (count_key k d)) flat_keys.
+
+(* where the file gives field k (the i-th in declaration order): by name in an object, by
+   position in an array (serde's derived visit_seq: missing trailing elements take the field
+   defaults, more than twelve elements are an error) *)
+Definition flat_at (doc : json) (k : string) (i : nat) : option json :=
+  match doc with JObj d => lookup k d | JArr l => nth_error l i | _ => None end.
+Definition flat_shape_ok (doc : json) : bool :=
+  match doc with JObj d => negb (dup_field d) | JArr l => Nat.leb (List.length l) 12 | _ => false end.
+
 Definition from_flat (doc : json) : option config :=
-  match doc with
-  | JObj d =>
-    match fl_str d "project_path" (project_path dflt) with None => None | Some pp =>
-    match fl_str d "output_path" (output_path dflt) with None => None | Some op =>
-    match fl_str d "validation_library" (validation_library dflt) with None => None | Some vl =>
-    match fl_obool d "verbose" with None => None | Some vb =>
-    match fl_obool d "visualize_deps" with None => None | Some vd =>
-    match fl_obool d "include_private" with None => None | Some ip =>
-    match fl_omap d "type_mappings" with None => None | Some tm =>
-    match fl_ostrs d "exclude_patterns" with None => None | Some ep =>
-    match fl_ostrs d "include_patterns" with None => None | Some ipat =>
-    match fl_str d "default_parameter_case" (default_parameter_case dflt) with None => None | Some pc =>
-    match fl_str d "default_field_case" (default_field_case dflt) with None => None | Some fc =>
-    match fl_obool d "force" with None => None | Some fo =>
+  if flat_shape_ok doc then
+    match rd_str (flat_at doc "project_path" 0) (project_path dflt) with None => None | Some pp =>
+    match rd_str (flat_at doc "output_path" 1) (output_path dflt) with None => None | Some op =>
+    match rd_str (flat_at doc "validation_library" 2) (validation_library dflt) with None => None | Some vl =>
+    match rd_obool (flat_at doc "verbose" 3) with None => None | Some vb =>
+    match rd_obool (flat_at doc "visualize_deps" 4) with None => None | Some vd =>
+    match rd_obool (flat_at doc "include_private" 5) with None => None | Some ip =>
+    match rd_omap (flat_at doc "type_mappings" 6) with None => None | Some tm =>
+    match rd_ostrs (flat_at doc "exclude_patterns" 7) with None => None | Some ep =>
+    match rd_ostrs (flat_at doc "include_patterns" 8) with None => None | Some ipat =>
+    match rd_str (flat_at doc "default_parameter_case" 9) (default_parameter_case dflt) with None => None | Some pc =>
+    match rd_str (flat_at doc "default_field_case" 10) (default_field_case dflt) with None => None | Some fc =>
+    match rd_obool (flat_at doc "force" 11) with None => None | Some fo =>
       Some {| project_path := pp; output_path := op; validation_library := vl; verbose := vb;
               visualize_deps := vd; include_private := ip; type_mappings := tm; exclude_patterns := ep;
               include_patterns := ipat; default_parameter_case := pc; default_field_case := fc; force := fo |}
     end end end end end end end end end end end end
-  | _ => None
-  end.
+  else None.
 
 (* config.rs:122 from_file: read, deserialise, validate (before any override) *)
 Definition from_file (f : fs) (p : string) : option config :=
@@ -448,14 +465,72 @@ Definition run_build (f : fs) : result :=
   end.
 
 (* ---------------------------------------------------------------- init -o <standalone file> *)
+(* the directory part of a path: everything before the last slash; None when there is none *)
+Fixpoint dirname (s : string) : option string :=
+  match s with
+  | EmptyString => None
+  | String c r => match dirname r with
+                  | Some d => Some (String c d)
+                  | None => if Ascii.eqb c "/"%char then Some EmptyString else None
+                  end
+  end.
+Definition is_dir_node (n : node) : bool := match n with NDoc _ => false | _ => true end.
+(* fs::write(t) can create or replace t: its directory exists and is a directory (a missing
+   directory is not created; a regular file in the way is ENOTDIR) and t itself is not a directory *)
+Definition init_writable (f : fs) (t : string) : bool :=
+  match dirname t with
+  | None => true
+  | Some d => String.eqb d "" || String.eqb d "." ||
+              match fs_get f d with Some n => is_dir_node n | None => false end
+  end
+  && match fs_get f t with Some n => negb (is_dir_node n) | None => true end.
+
 (* bin run_init with a target not named tauri.conf.json (t = the -o value): an existing
    target is only overwritten with --force; the settings are validated before the file is
-   created; save_to_file writes the twelve keys; then the initial generation runs.
-   (The directory of the target is assumed to exist: the correspondence only uses such targets.) *)
+   created; save_to_file writes the twelve keys (an error, nothing created, when the target
+   cannot be written: its directory does not exist); then the initial generation runs. *)
 Definition run_init_file (f : fs) (il : iflags) (force : bool) : result :=
   let t := or_else (i_output il) "tauri.conf.json" in
   if fs_exists f t && negb force then RFail f
   else match validate f (init_config il) with
        | Some e => RReject e f
-       | None => run_generate (fs_put f t (NDoc (Some (flat_json (init_config il))))) (init_flags il)
+       | None =>
+           if init_writable f t
+           then run_generate (fs_put f t (NDoc (Some (flat_json (init_config il))))) (init_flags il)
+           else RFail f
        end.
+
+(* ---------------------------------------------------------------- the build script's project detection *)
+(* build/project_scanner.rs detect_project, seen from the working directory: the first
+   directory, walking upwards, that holds tauri.conf.json, tauri.conf.js or src-tauri. Two
+   levels are modelled (the working directory and its parent: r is the prefix that leads
+   there); that nothing is found further up is an assumption about where the check runs. *)
+Definition is_root (f : fs) (r : string) : bool :=
+  fs_exists f (r ++ "tauri.conf.json") || fs_exists f (r ++ "tauri.conf.js") || fs_exists f (r ++ "src-tauri").
+Definition build_root (f : fs) : option string :=
+  if is_root f "" then Some "" else if is_root f "../" then Some "../" else None.
+(* project_scanner.rs:66-72 the configuration document of the detected root *)
+Definition build_conf_path (f : fs) (r : string) : option string :=
+  if fs_exists f (r ++ "tauri.conf.json") then Some (r ++ "tauri.conf.json")
+  else if fs_exists f (r ++ "tauri.conf.js") then Some (r ++ "tauri.conf.js") else None.
+(* build/mod.rs load_configuration for a given document path and typegen.json path *)
+Definition build_config_at (f : fs) (tp : option string) (gp : string) : config :=
+  match (match tp with Some p => from_tauri_config f p | None => LNone end) with
+  | LOk c => c
+  | _ => match from_file f gp with Some c => c | None => dflt end
+  end.
+(* build/mod.rs run_generation: no project detected = nothing is generated, Ok; the settings'
+   paths stay relative to the working directory *)
+Definition run_build_detect (f : fs) : result :=
+  match build_root f with
+  | None => RNoCommands (eff_of no_flags dflt) f
+  | Some r =>
+      let c := build_config_at f (build_conf_path f r) (r ++ "typegen.json") in
+      let e := eff_of no_flags c in
+      match fs_get f (project_path c) with
+      | Some NProj =>
+          RRun e (fs_put f (output_path c)
+                    (NOut {| g_project := norm (project_path c); g_lib := validation_library c; g_viz := e_visualize e |}))
+      | _ => RNoCommands e f
+      end
+  end.
